@@ -212,12 +212,13 @@ func init() {
 		b = c13body("", "decryptPackage")
 		for _, pat := range []string{
 			`encryptedKey, offset := encryption.KeyData, packageOffset`,
-			`for end < len(input) { start = end end = start + packageEncryptionChunkSize if end > len(input) { end = len(input) }`,
-			`if (end + offset) < len(input) { inputChunk = input[start+offset : end+offset] } else { inputChunk = input[start+offset : end] }`,
+			`data := input[offset:]`,
+			`for i, start := 0, 0; start < len(data); i, start = i+1, start+packageEncryptionChunkSize { end := start + packageEncryptionChunkSize if end > len(data) { end = len(data) }`,
+			`inputChunk := data[start:end]`,
 			`remainder := len(inputChunk) % encryptedKey.BlockSize if remainder != 0 { inputChunk = append(inputChunk, make([]byte, encryptedKey.BlockSize-remainder)...) }`,
 			`iv, err = createIV(i, encryption)`,
 			`outputChunk, err = decrypt(packageKey, iv, inputChunk)`,
-			`outputChunks = append(outputChunks, outputChunk...) i++ }`,
+			`outputChunks = append(outputChunks, outputChunk...) } return }`,
 		} {
 			if !strings.Contains(b, pat) {
 				fail("decryptPackage: `%s`", pat)
